@@ -1799,7 +1799,10 @@ def _getitem(self, item: NestedKey) -> Any:
 
     """
     if isinstance(item, str) or (
-        isinstance(item, tuple) and all(isinstance(_item, str) for _item in item)
+        # the empty tuple is an index (of the whole batch), not a key
+        isinstance(item, tuple)
+        and len(item)
+        and all(isinstance(_item, str) for _item in item)
     ):
         raise ValueError(f"Invalid indexing arguments: {item}.")
     # tensor_res = super(type(self), self).__getattribute__("_tensordict")[item]
